@@ -12,7 +12,7 @@ from props.C06 import describe, rules
 REQUIRED_THEOREMS = ['Usid.C12.cell_exact', 'Usid.C12.group_sizes', 'Usid.C12.reduced_anc_all_removed',
                      'Usid.C12.reduced_anc_keeps_labels', 'Usid.C12.memory_rejects', 'Usid.C12.file_form',
                      'Usid.C12.file_form_pos_reduced', 'Usid.C12.file_form_spec_reduced']
-RULE = ('generator datasets (1-3 dimensions per side, sizes 1-4, any storage order, integer-valued data; a quarter with a '
+RULE = ('[also: main dtypes f8/f4/i4, dims as list / tuple / bare string, dset_name, a repeated to_hdf5 call; units, quantity, placeholder side and the array returned by the to_hdf5 call observed] generator datasets (1-3 dimensions per side, sizes 1-4, any storage order, integer-valued data; a quarter with a '
         'dimension whose reference values are NOT distinct - elements are identified by their indices, values checked separately) x non-empty subsets '
         'of their dimensions (thorough: EVERY non-empty subset) x {mean, sum, max, min, std} x the wrapper\'s view (file order, '
         'sorted at construction, toggled once or twice); in-memory result compared '
@@ -31,7 +31,7 @@ def generate(seed, tier):
     for i in range(n_cases):
         rng = derived_rng(seed, 'C12', i)
         while True:
-            ds = gen.gen_dataset(rng, max_dims=3, max_size=4, long_prob=0.12, dup_prob=0.25)
+            ds = gen.gen_dataset(rng, max_dims=3, max_size=4, long_prob=0.12, dup_prob=0.25, dtypes=('f8', 'f8', 'f4', 'i4'))
             n, m = gen.n_points(ds['pos']), gen.n_points(ds['spec'])
             if n * m <= 300 and all(len(s['sizes']) <= gen.n_points(s) for s in (ds['pos'], ds['spec'])):
                 break
@@ -47,7 +47,10 @@ def generate(seed, tier):
         if i % 9 == 8:
             dims = list(ds[rng.choice(['pos', 'spec'])]['labels'])      # a whole side
         cases.append({'ds': ds, 'dims': dims, 'func': rng.choice(FUNCS), 'to_file': rng.random() < 0.7,
-                      'view': rng.choice(VIEWS)})
+                      'view': rng.choice(VIEWS),
+                      # `dims` handed over as a bare string / tuple; dset_name; the call repeated
+                      'dims_as': rng.choice(['list', 'list', 'tuple', 'str'] if len(dims) == 1 else ['list', 'list', 'tuple']),
+                      'dset_name': rng.choice([None, None, None, 'red']), 'twice': rng.random() < 0.15})
     return cases
 
 
@@ -64,9 +67,12 @@ def _apply(func, vals):
     return float(np.std(vals))
 
 
+_F4 = [False]      # set per case: single-precision sources are reduced in single precision
+
+
 def _close(func, a, b):
-    if func == 'std':
-        return abs(a - b) <= 1e-9 * max(1.0, abs(b))
+    if func == 'std' or (_F4[0] and func == 'mean'):
+        return abs(a - b) <= (2e-5 if _F4[0] else 1e-9) * max(1.0, abs(b))
     return a == b
 
 
@@ -112,7 +118,9 @@ def run_impl(inp, work):
         u = USIDataset(f['G/main'], sort_dims=(view == 'sorted'))
         for _ in range({'toggled': 1, 'toggled_twice': 2}.get(view, 0)):
             u.toggle_sorting()
-        r = call(u.reduce, inp['dims'], ufunc=ufunc, to_hdf5=False)
+        dims_arg = {'list': list, 'tuple': tuple, 'str': lambda d: d[0]}[inp.get('dims_as', 'list')](inp['dims'])
+        kwn = {'dset_name': inp['dset_name']} if inp.get('dset_name') else {}
+        r = call(u.reduce, dims_arg, ufunc=ufunc, to_hdf5=False)
         if r[0] == 'err':
             out['mem'] = {'err': r[1], 'cls': r[2]}
         else:
@@ -121,11 +129,13 @@ def run_impl(inp, work):
         if inp['to_file']:
             src_cells, _, _, _, spi, _, ssi, _ = _coord_map(f, f['G/main'])
             src_pi, src_si = spi.name, ssi.name
-            r = call(u.reduce, inp['dims'], ufunc=ufunc, to_hdf5=True)
+            r = call(u.reduce, dims_arg, ufunc=ufunc, to_hdf5=True, **kwn)
             if r[0] == 'err':
                 out['file'] = {'err': r[1], 'cls': r[2]}
             else:
                 new = r[1][1]
+                a2 = np.asarray(r[1][0].compute())
+                out['mem_of_file_call'] = {'shape': list(a2.shape), 'flat': [float(x) for x in a2.ravel()]}
                 h5n = f[new.name]
                 cells, table, pl, sl, pi, pv, si, sv = _coord_map(f, h5n)
                 data = np.asarray(h5n[()], dtype=np.float64)
@@ -135,7 +145,18 @@ def run_impl(inp, work):
                 out['file'] = {'valid': rules(describe(f, h5n)), 'shape': list(data.shape), 'cells': cells, 'table': table,
                                'pos_labels': pl, 'spec_labels': sl, 'pos_reused': pi.name == src_pi,
                                'spec_reused': si.name == src_si,
-                               'pos_units': strs(pv.attrs['units']), 'spec_units': strs(sv.attrs['units'])}
+                               'pos_units': strs(pv.attrs['units']), 'spec_units': strs(sv.attrs['units']),
+                               'leaf': new.name.split('/')[-1], 'group': new.name.split('/')[-2],
+                               'placeholder': {'pos': [np.asarray(pi[()]).tolist(), np.asarray(pv[()]).tolist()],
+                                               'spec': [np.asarray(si[()]).tolist(), np.asarray(sv[()]).tolist()]},
+                               'quantity': [str(h5n.attrs.get('quantity')), str(f['G/main'].attrs.get('quantity'))]}
+                if inp.get('twice'):
+                    r2 = call(u.reduce, dims_arg, ufunc=ufunc, to_hdf5=True, **kwn)
+                    if r2[0] == 'err':
+                        out['file']['second'] = {'err': r2[1]}
+                    else:
+                        c2 = _coord_map(f, f[r2[1][1].name])[0]
+                        out['file']['second'] = {'group': r2[1][1].name.split('/')[-2], 'same': c2 == cells}
             out['src_map'] = [[k, int(round(v))] for k, v in src_cells]
     return out
 
@@ -151,6 +172,7 @@ def _groupby(inp, src_map, remaining):
 def oracle(inp, obs):
     fails = []
     ds = inp['ds']
+    _F4[0] = ds.get('dtype') == 'f4'
     labs = ds['pos']['labels'] + ds['spec']['labels']
     sizes = ds['pos']['sizes'] + ds['spec']['sizes']
     func = inp['func']
@@ -217,8 +239,32 @@ def oracle(inp, obs):
                     if fl.get('table', {}).get(l) != want_t:
                         fails.append('file-unit-values: dimension %s of the written dataset carries %s, original reference '
                                      'values %s' % (l, fl.get('table', {}).get(l), want_t))
+        if 'mem_of_file_call' in obs and 'err' not in obs['mem'] and \
+                (obs['mem_of_file_call']['shape'] != obs['mem']['shape'] or
+                 not all(_close(func, a, b) for a, b in zip(obs['mem_of_file_call']['flat'], obs['mem']['flat']))):
+            fails.append('file-call-array: the array returned by the to_hdf5=True call differs from the in-memory reduction')
+        if inp.get('dset_name') and fl.get('leaf') not in (None, inp['dset_name']):
+            fails.append('dset-name: the written dataset is called %r, requested %r' % (fl.get('leaf'), inp['dset_name']))
+        if 'quantity' in fl and fl['quantity'][0] != fl['quantity'][1]:
+            fails.append('file-quantity: the written dataset carries quantity %r, the source %r' % tuple(fl['quantity']))
+        if 'second' in fl:
+            if 'err' in fl['second']:
+                fails.append('second-call: repeating reduce(to_hdf5=True) raised %s' % fl['second']['err'])
+            elif not fl['second']['same'] or fl['second']['group'] == fl.get('group'):
+                fails.append('second-call: the repeated call did not write an equal dataset into a new group (%s)' % (fl['second'],))
+        unit_of = dict(zip(ds['pos']['labels'] + ds['spec']['labels'], ds['pos']['units'] + ds['spec']['units']))
+        for key in ('pos', 'spec'):
+            for l, un in zip(fl[key + '_labels'], fl.get(key + '_units', [])):
+                if l in unit_of and un != unit_of[l]:
+                    fails.append('file-units-%s: dimension %s carries units %r, source %r' % (key, l, un, unit_of[l]))
         for side, key in ((ds['pos'], 'pos'), (ds['spec'], 'spec')):
             touched = any(l in inp['dims'] for l in side['labels'])
+            if touched and not [l for l in side['labels'] if l not in inp['dims']] and 'placeholder' in fl:
+                # a wholly reduced side: a single point with index 0
+                inds = np.asarray(fl['placeholder'][key][0])
+                if inds.size != 1 or int(inds.ravel()[0]) != 0 or len(fl[key + '_labels']) != 1:
+                    fails.append('file-placeholder-%s: a wholly reduced side is not the one-point placeholder (%s, labels %s)'
+                                 % (key, inds.tolist(), fl[key + '_labels']))
             if not touched and not fl[key + '_reused']:
                 fails.append('file-reuse-%s: ancillaries of the untouched side were not reused' % key)
             if touched:
